@@ -232,4 +232,77 @@ theorem seg_append (N : List Block) {f h B : Nat} (h1 : f ≤ h) (h2 : h ≤ B) 
     rw [List.drop_drop]; congr 1; omega
   rw [this, List.take_append_drop]
 
+-- ------------------------------------------------------------------ 2. alignNew
+
+/-- the loop of reorg step 1, from any block `nb` of the node's chain with enough fuel: it stops at the block
+    of the node's chain at height `min nb.height curH`, having collected the blocks above it up to `nb` -/
+theorem alignNew_loop {c : Ctx} (hN : GoodChain c.node.chain) (hinj : IdInj c.node.chain) (curH : Nat) :
+    ∀ (fuel : Nat) (nb : Block) (tc : List Block), c.node.chain[nb.height]? = some nb →
+      nb.height - curH ≤ fuel →
+      ∃ nb', c.node.chain[min nb.height curH]? = some nb' ∧
+        alignNew c curH fuel nb tc =
+          .ok (nb', (c.node.chain.take (nb.height + 1)).drop (min nb.height curH + 1) ++ tc) := by
+  intro fuel
+  induction fuel with
+  | zero =>
+    intro nb tc hnb hf
+    have hm : min nb.height curH = nb.height := by omega
+    refine ⟨nb, by rw [hm]; exact hnb, ?_⟩
+    rw [hm, List.drop_take]
+    simp [alignNew]
+  | succ fuel ih =>
+    intro nb tc hnb hf
+    unfold alignNew
+    by_cases hlt : curH < nb.height
+    · simp only [hlt, if_true]
+      obtain ⟨k, hk⟩ : ∃ k, nb.height = k + 1 := ⟨nb.height - 1, by omega⟩
+      have hkN : k < c.node.chain.length := by have := (List.getElem?_eq_some_iff.1 hnb).1; omega
+      have hpb : c.node.chain[k]? = some c.node.chain[k] := List.getElem?_eq_getElem hkN
+      have hprev : nb.prev = c.node.chain[k].id := hN.prev_at hpb (by rw [← hk]; exact hnb)
+      have hph : c.node.chain[k].height = k := hN.height_at hpb
+      rw [hprev, fetchBlock_at hN hinj hpb]
+      simp only
+      obtain ⟨nb', h1, h2⟩ := ih c.node.chain[k] (nb :: tc) (by rw [hph]; exact hpb) (by rw [hph]; omega)
+      rw [hph] at h1 h2
+      have hm : min nb.height curH = min k curH := by omega
+      refine ⟨nb', by rw [hm]; exact h1, ?_⟩
+      rw [h2, hm, hk, take_succ_of_get (k := k + 1) (by rw [← hk]; exact hnb),
+        List.drop_append_of_le_length (by rw [List.length_take]; omega)]
+      simp
+    · simp only [hlt, if_false]
+      have hm : min nb.height curH = nb.height := by omega
+      refine ⟨nb, by rw [hm]; exact hnb, ?_⟩
+      rw [hm, List.drop_take]
+      simp
+
+/-- item 2, uniform form: `alignNew` with the fuel `reorg` passes returns the block of the node's chain at
+    height `min b.height curH` and the blocks above it up to `b`, ascending -/
+theorem alignNew_min {c : Ctx} (hN : GoodChain c.node.chain) (hinj : IdInj c.node.chain) (curH : Nat)
+    {b : Block} (hb : c.node.chain[b.height]? = some b) :
+    ∃ nb, c.node.chain[min b.height curH]? = some nb ∧
+      alignNew c curH (b.height + 1) b [] =
+        .ok (nb, (c.node.chain.take (b.height + 1)).drop (min b.height curH + 1)) := by
+  obtain ⟨nb, h1, h2⟩ := alignNew_loop hN hinj curH (b.height + 1) b [] hb (by omega)
+  exact ⟨nb, h1, by simpa using h2⟩
+
+/-- item 2 as requested: fuel `b.height + 1` suffices; if `b` is not above `curH` nothing happens, otherwise
+    the walk ends at the node's block at `curH` with the blocks above `curH` up to `b` to connect -/
+theorem alignNew_spec {c : Ctx} (hN : GoodChain c.node.chain) (hinj : IdInj c.node.chain) (curH : Nat)
+    {b : Block} (hb : c.node.chain[b.height]? = some b) :
+    ∃ nb tc, alignNew c curH (b.height + 1) b [] = .ok (nb, tc) ∧
+      (b.height ≤ curH → nb = b ∧ tc = []) ∧
+      (curH < b.height → c.node.chain[curH]? = some nb ∧
+        tc = (c.node.chain.take (b.height + 1)).drop (curH + 1)) := by
+  obtain ⟨nb, h1, h2⟩ := alignNew_min hN hinj curH hb
+  refine ⟨nb, _, h2, ?_, ?_⟩
+  · intro hle
+    have hm : min b.height curH = b.height := by omega
+    rw [hm] at h1 ⊢
+    rw [hb] at h1
+    exact ⟨(Option.some.inj h1).symm, by rw [List.drop_take]; simp⟩
+  · intro hlt
+    have hm : min b.height curH = curH := by omega
+    rw [hm] at h1 ⊢
+    exact ⟨h1, rfl⟩
+
 end MW.Lemmas.Ledger
